@@ -479,7 +479,7 @@ class HistModel:
         if tier == "thorough":
             ops.append(["obs"])
         ops.append(["load"])
-        ops += [["w", "B"], ["w", "C"], ["w", "A"], ["rn", "B"], ["rn", "A"]]
+        ops += [["w", "B"], ["w", "C"], ["w", "A"], ["rn", "B"], ["rn", "A"], ["rno", "B"], ["rno", "A"]]
         self._ops = ops
 
     def initial(self):
@@ -492,7 +492,10 @@ class HistModel:
         return self._ops
 
     def canon(self, st):
-        return (st.version, tuple(sorted(st.reads)))
+        # version on disk + what has been read so far + HOW the current version got there (in-place write, rename,
+        # replacement by an older file): the file's metadata is state the library may key a cache on
+        lastw = next((o[0] for o in reversed(st.hist) if o[0] in ("w", "rn", "rno")), "-")
+        return (st.version, tuple(sorted(st.reads)), lastw)
 
     # ---- execution of one history on the implementation
     def _exec(self, hist):
@@ -511,6 +514,7 @@ class HistModel:
             path = os.path.join(d, "input" + self.ext)
             other = os.path.join(d, "second" + self.ext)
             nwrites = 0
+            nold = 0
             name, name2 = path, other                   # what the library is given
             if self.style != "abs":
                 name, name2 = os.path.basename(path), os.path.basename(other)
@@ -542,6 +546,16 @@ class HistModel:
                         _write(tmp, version_array(op[1], seed), self.ext)
                         os.replace(tmp, path)
                         stamp()
+                        outs.append(None)
+                    elif op[0] == "rno":
+                        # replaced by a file that is OLDER than everything before (a restored backup, `cp -p`, `mv`):
+                        # the modification time goes backwards, the content is new
+                        tmp = path + ".old" + self.ext
+                        _write(tmp, version_array(op[1], seed), self.ext)
+                        nold += 1
+                        t = (MTIME_BASE - 1000 * nold) * 1_000_000_000
+                        os.utime(tmp, ns=(t, t))
+                        os.replace(tmp, path)
                         outs.append(None)
                     elif op[0] == "load":
                         outs.append(np.asarray(pyxel.load_image(name), dtype="float64"))
@@ -588,13 +602,13 @@ class HistModel:
         hist = st.hist + [op]
         viols = []
         version, reads = st.version, st.reads
-        if op[0] in ("w", "rn"):          # executed (in order) when a later load replays the history
+        if op[0] in ("w", "rn", "rno"):   # executed (in order) when a later load replays the history
             return HState(hist, op[1], reads), viols
         out = self._exec(hist)[-1]
         kind = op[0] if op[0] != "model" else "model-" + op[1]
         content = version_array(version, seed)
         placed = content if kind == "load" else ref_place(content, H_DSHAPE, 0, 0)
-        written = [o[1] for o in hist if o[0] in ("w", "rn")]
+        written = [o[1] for o in hist if o[0] in ("w", "rn", "rno")]
         prior = [v for v in (["A"] + written)[:-1] if v != version]
 
         def bad(code, what):
